@@ -14,7 +14,7 @@ LEAN_SUPPORT = ["AcryoVerif.Model.Cache", "AcryoVerif.Model.Loader", "AcryoVerif
 KERNELS = ["backendEqByModule", "cacheGetProtocol", "cacheFilledAtInit", "declaredLandscapeShapeFromModel",
            "declaredLoadingShape", "landscapePad", "landscapeNeedUpsample", "buildMeshAxis",
            "batchTasksScatteredToMoleculeOrder", "paddingWidth", "padWidthEff0", "padWidthEff1", "pccLandscapeBounds",
-           "fscOutShape"]
+           "fscOutShape", "modelMethodsDoNotStoreBase", "modelMethodsDoNotStoreConcrete", "tiltModelsDoNotStore"]
 TRUSTED = [
     "Lean 4.33 kernel; axioms propext / Classical.choice / Quot.sound only",
     "structure of Backend.__eq__/__hash__, TemplateMaskCache.get/set, construct_landscape read from the AST",
@@ -151,6 +151,146 @@ def run_case(inp):
                 V("cache-race", f"instruction-level schedule {schedule[:30]} with {n} threads: results {res}, cache size {len(c._dict)}")
                 break
         return viols
+    if kind == "declared-shape":
+        from acryo.alignment import PCCAlignment, NCCAlignment
+        from acryo.alignment._concrete import FSCAlignment
+        cls = {"ZNCC": ZNCCAlignment, "PCC": PCCAlignment, "NCC": NCCAlignment, "FSC": FSCAlignment}[inp["model"]]
+        tomo = r.normal(size=(24, 24, 24)).astype(np.float32)
+        mole = Molecules(r.uniform(9, 14, size=(2, 3)).astype(np.float32))
+        n = int(inp["n"])
+        tm = r.normal(size=(n, n, n)).astype(np.float32)
+        tmpl = [tm, tm[::-1].copy()] if inp["two_templates"] else tm
+        ms = inp["max_shifts"]
+        ms = tuple(ms) if isinstance(ms, list) else ms
+        kw = dict(rotations=((0, 0), (0, 0), (10, 10))) if inp["rotations"] else {}
+        try:
+            with dask.config.set(scheduler="synchronous"):
+                ld = SubtomogramLoader(tomo, mole, order=1, output_shape=(n, n, n))
+                lds = ld.construct_landscape(tmpl, max_shifts=ms, upsample=int(inp["upsample"]), alignment_model=cls, **kw)
+                declared = tuple(int(v) for v in lds.shape)
+                computed = tuple(int(v) for v in np.asarray(lds.compute()).shape)
+        except Exception as e:  # noqa: BLE001
+            V("spurious-error", f"construct_landscape({inp['model']}, max_shifts={ms}, upsample={inp['upsample']}): "
+                                f"{type(e).__name__}: {str(e)[:100]}")
+            return viols
+        if declared != computed:
+            V("declared-shape", f"construct_landscape({inp['model']}, max_shifts={ms}, upsample={inp['upsample']}, "
+                                f"rotations={bool(inp['rotations'])}) declares {declared} but computes {computed}")
+        return viols
+    if kind == "model-interleave":
+        # Two or three tasks share ONE alignment model (as every loader method does). Their Python
+        # code inside acryo.alignment / acryo.tilt is interleaved instruction by instruction following a
+        # seeded schedule (sys.monitoring scheduler); each task must return what it returns when run alone.
+        import sched
+        import types
+        from scipy.spatial.transform import Rotation
+        import acryo.alignment._base as AB
+        import acryo.alignment._concrete as AC
+        import acryo.tilt._base as TB
+        import acryo.tilt._single as TS
+        from acryo.alignment import ZNCCAlignment, PCCAlignment
+
+        def codes_of(mod):
+            out = []
+
+            def rec(c):
+                out.append(c)
+                for k in c.co_consts:
+                    if isinstance(k, types.CodeType):
+                        rec(k)
+            for obj in vars(mod).values():
+                if isinstance(obj, type) and obj.__module__ == mod.__name__:
+                    for v in vars(obj).values():
+                        f = getattr(v, "__func__", v)
+                        if isinstance(f, types.FunctionType):
+                            rec(f.__code__)
+                elif isinstance(obj, types.FunctionType) and obj.__module__ == mod.__name__:
+                    rec(obj.__code__)
+            return out
+        codes = codes_of(AB) + codes_of(AC) + codes_of(TB) + codes_of(TS)
+        # stop only where shared state can be touched (attribute / item loads and stores): every step of
+        # the schedule is then a potential conflict point, as in preemption-bounded schedule exploration
+        import dis
+        bps = {}
+        for c in codes:
+            offs = {i.offset for i in dis.get_instructions(c)
+                    if i.opname in ("STORE_ATTR", "LOAD_ATTR", "STORE_SUBSCR", "BINARY_SUBSCR", "DELETE_ATTR", "DELETE_SUBSCR")}
+            if offs:
+                bps[c] = offs
+        nthreads = int(inp["threads"])
+        cls = {"ZNCC": ZNCCAlignment, "PCC": PCCAlignment}[inp["model"]]
+        tmpl = r.normal(size=(6, 6, 6)).astype(np.float32)
+        subs = [r.normal(size=(6, 6, 6)).astype(np.float32) for _ in range(nthreads)]
+        quats = Rotation.random(nthreads, random_state=inp["seed"]).as_quat().astype(np.float32)
+        method = inp["method"]
+
+        def task(model, i):
+            if method == "align":
+                res = model.align(subs[i], (1.0, 1.0, 1.0), quats[i], np.zeros(3, dtype=np.float32))
+                return (float(res.score),) + tuple(float(v) for v in res.shift)
+            if method == "score":
+                return (float(model.score(subs[i], quats[i], np.zeros(3, dtype=np.float32))),)
+            lds = np.asarray(model.landscape(subs[i], (1.0, 1.0, 1.0), quats[i], np.zeros(3, dtype=np.float32)))
+            return (float(lds.sum()), float(lds.max()))
+        for trial in range(int(inp["trials"])):
+            alone = []
+            for i in range(nthreads):
+                alone.append(task(cls(tmpl, tilt=(-60, 60), cutoff=0.5), i))
+            model = cls(tmpl, tilt=(-60, 60), cutoff=0.5)
+            sr = np.random.default_rng(inp["seed"] * 1000 + trial)
+            # bursts of varying length so that both fine and coarse interleavings occur
+            schedule = []
+            while len(schedule) < int(inp["steps"]):
+                schedule += [int(sr.integers(0, nthreads))] * int(sr.choice([1, 1, 1, 2, 3, 8, 30]))
+            res, _ = sched.run_schedule([(lambda i=i: task(model, i)) for i in range(nthreads)], codes, schedule,
+                                        bps if trial % 2 == 0 else None)
+            for i, (st, val) in enumerate(res):
+                if st != "ok":
+                    V("spurious-error", f"{inp['model']}.{method}: task {i} raised {val} under instruction schedule "
+                                        f"(trial {trial})")
+                    return viols
+                if any(abs(a - b) > 1e-5 for a, b in zip(val, alone[i])):
+                    V("schedule-dependence", f"{inp['model']}.{method} with a shared model and a missing-wedge tilt model: "
+                                             f"task {i} returns {val} when interleaved with {nthreads - 1} other task(s) "
+                                             f"(trial {trial}) but {alone[i]} when run alone")
+                    return viols
+        return viols
+    if kind == "wedge-race":
+        # many molecules with distinct orientations share one model with a missing-wedge tilt model:
+        # threaded runs must reproduce the synchronous scores / poses
+        from scipy.spatial.transform import Rotation
+        n = int(inp["nmol"])
+        tomo = r.normal(size=(30, 30, 30)).astype(np.float32)
+        pos = r.uniform(9, 20, size=(n, 3)).astype(np.float32)
+        mole = Molecules(pos, Rotation.random(n, random_state=inp["seed"]))
+        tmpl = r.normal(size=(7, 7, 7)).astype(np.float32)
+
+        def run(cfg):
+            with dask.config.set(**cfg):
+                ld = SubtomogramLoader(tomo, mole, order=1, output_shape=(7, 7, 7))
+                al = ld.align(tmpl, max_shifts=1.0, tilt=(-60, 60), cutoff=0.5)
+                sc = np.asarray(ld.score([tmpl], tilt=(-60, 60))[0])
+                return al.molecules.pos.copy(), al.molecules.features["score"].to_numpy(), sc
+        old = sys.getswitchinterval()
+        try:
+            ref = run(dict(scheduler="synchronous"))
+            sys.setswitchinterval(1e-6)
+            for rep in range(int(inp["reps"])):
+                for w in inp["workers"]:
+                    try:
+                        got = run(dict(scheduler="threads", num_workers=int(w)))
+                    except Exception as e:  # noqa: BLE001
+                        V("spurious-error", f"threads/{w}: {type(e).__name__}: {str(e)[:120]}")
+                        continue
+                    bad = [int((np.abs(a - b) > 1e-5).reshape(n, -1).any(axis=1).sum()) for a, b in zip(ref, got)]
+                    if any(bad):
+                        V("schedule-dependence", f"with a missing-wedge model and {n} differently oriented molecules, "
+                                                 f"threads/{w} changes {bad[1]} alignment scores, {bad[0]} aligned positions "
+                                                 f"and {bad[2]} score() values of the synchronous run")
+                        return viols
+        finally:
+            sys.setswitchinterval(old)
+        return viols
     tomo = r.integers(-6, 7, size=(26, 25, 24)).astype(np.float32)
     pos = np.array([[r.integers(7, 18), r.integers(7, 17), r.integers(7, 16)] for _ in range(inp["nmol"])], dtype=np.float32)
     mole = Molecules(pos)
@@ -214,6 +354,19 @@ def oracle(rng, thorough, deep=False, hints=None):
                           order=int(rng.choice([0, 1])),
                           chunkings=[None, [13, 13, 12], [26, 9, 24]] if big else [None, [13, 13, 12]],
                           schedulers=[["threads", 1], ["threads", 4], ["threads", 16]] if big else [["threads", 4], ["threads", 16]]))
+    mss = [1.4, [1.0, 2.6, 2.0], 5.0, 0.6, 2.0]
+    combos = [(m, j) for m in ("ZNCC", "PCC", "FSC", "NCC") for j in range(len(mss))]
+    if not big:
+        combos = [combos[int(k)] for k in rng.permutation(len(combos))[:8]] + [("FSC", 0), ("PCC", 2)]
+    for m, j in combos:
+        cases.append(dict(kind="declared-shape", model=m, max_shifts=mss[j], n=7, upsample=[1, 2][(j + len(m)) % 2] if m != "FSC" else 1,
+                          rotations=bool(j % 2), two_templates=bool(j == 3), seed=int(rng.integers(0, 10 ** 6))))
+    for i in range(6 if deep else (3 if thorough else 2)):
+        cases.append(dict(kind="model-interleave", seed=int(rng.integers(0, 10 ** 6)), threads=[2, 3][i % 2],
+                          model=["ZNCC", "PCC"][i % 2], method=["align", "score", "landscape"][i % 3],
+                          trials=40 if deep else 4, steps=3000))
+    cases.append(dict(kind="wedge-race", seed=int(rng.integers(0, 10 ** 6)), nmol=64 if big else 32,
+                      workers=[8, 16] if big else [8], reps=6 if deep else (2 if thorough else 1)))
     viols, stats = [], {"cases": len(cases), "samples": [{"oracle_case": c} for c in cases[:2]]}
     for c in cases:
         viols += run_case(c)
